@@ -1364,6 +1364,10 @@ def _unset_string_default(ctx, repo):
                     if kw.arg is None:
                         continue
                     v = kw.value
+                    if isinstance(v, ast.Name):
+                        loc = [a_ for a_ in ast.walk(fn) if isinstance(a_, ast.Assign) and len(a_.targets) == 1 and isinstance(a_.targets[0], ast.Name) and a_.targets[0].id == v.id]
+                        if len(loc) == 1:
+                            v = loc[0].value
                     inner = v
                     mapped = False
                     if isinstance(v, ast.BoolOp) and isinstance(v.op, ast.Or) and isinstance(v.values[-1], ast.Constant) and v.values[-1].value is None:
